@@ -2700,14 +2700,27 @@ func rv6DispatchImpliesConsumption(w *World) {
 		// rewinds by RuneLen(r) and calls a lexer function of the package?
 		rewinds := false
 		var target *types.Func
+		widthLocal := map[types.Object]bool{} // w := utf8.RuneLen(r)
+		isRuneLen := func(e ast.Expr) bool {
+			if rc, ok := ast.Unparen(e).(*ast.CallExpr); ok {
+				if f := callee(info, rc); f != nil && f.Name() == "RuneLen" {
+					return true
+				}
+			}
+			if id, ok := ast.Unparen(e).(*ast.Ident); ok && widthLocal[info.ObjectOf(id)] {
+				return true
+			}
+			return false
+		}
 		for _, st := range cc.Body {
 			ast.Inspect(st, func(y ast.Node) bool {
-				if as, ok := y.(*ast.AssignStmt); ok && as.Tok == token.SUB_ASSIGN && len(as.Rhs) == 1 {
-					if rc, ok := ast.Unparen(as.Rhs[0]).(*ast.CallExpr); ok {
-						if f := callee(info, rc); f != nil && f.Name() == "RuneLen" {
-							rewinds = true
-						}
+				if as, ok := y.(*ast.AssignStmt); ok && (as.Tok == token.DEFINE || as.Tok == token.ASSIGN) && len(as.Lhs) == 1 && len(as.Rhs) == 1 && isRuneLen(as.Rhs[0]) {
+					if id, ok := as.Lhs[0].(*ast.Ident); ok {
+						widthLocal[info.ObjectOf(id)] = true
 					}
+				}
+				if as, ok := y.(*ast.AssignStmt); ok && as.Tok == token.SUB_ASSIGN && len(as.Rhs) == 1 && isRuneLen(as.Rhs[0]) {
+					rewinds = true
 				}
 				if ce, ok := y.(*ast.CallExpr); ok && target == nil {
 					if f := callee(info, ce); f != nil && f.Pkg() == p.Types && strings.HasPrefix(f.Name(), "lex") {
